@@ -56,6 +56,9 @@ CLAIMED = {
  'C14': ('Proved for ANY numeric core: segment count never exceeds the budget, a budget of n-1 suffices, accepted pieces cover the data with shared end points; for the transcribed numeric core over R: first/last points interpolated exactly, the chain is connected, every input point within sqrt(error+1e-9) of its accepted cubic at a parameter in [0,1], the three "return []" exits are dead code, '
          'adjacent-duplicate removal is exactly that; the only escape is a corner re-entry that would diverge (characterised, never observed). The float run taking the same decisions and finiteness of control points are measured (bit-exact correspondence of the whole fitter incl. its call log).',
          'two-layer hand model (recursion skeleton over an abstract core + bit-faithful numeric core) with bit-exact correspondence; induction on fuel; search over all families of the quantifier', '4/C14'),
+ 'C20': ('Proved over R for all control points and all fuel, about generated S/D tables and a hand model of minDist tied by exact correspondence (recorded S values, call counts): S(u,v) IS the squared distance |P(u)-Q(v)|^2 for all nine kind pairs; a returned alpha is S at some point of [0,1]^2 (and the reported parameters lie in [0,1]); hence the distance is realised, >= 0, >= the true minimum and <= the maximum; '
+         'the reported segments of a path pair belong to the paths; the only non-Ok outcome over R is fuel. Termination within the recursion limit and float behaviour near distance 0 are measured.',
+         'translator-regenerated S and D(r,k) (memo stripped, binomials run from source) proved equal to the squared distance by field; hand model of the branch-and-bound with threaded bestAlpha, induction on fuel; brute-force reference search', '4/C20'),
 }
 PENDING_REASON = 'machinery for this property is not built yet in this revision (see DESIGN section 7); it is not claimed on the strength of a search alone'
 ALL = ['C%02d' % i for i in range(1, 21)]
